@@ -20,22 +20,31 @@ theorem facts_match :
     FactsC02.getResetsAll = Expected.C02.getResetsAll ∧
     FactsC02.workflowIsEagerDag = Expected.C02.workflowIsEagerDag := by decide
 
-/-- the readiness predicate of the property: not skipped, every control predecessor has
-    finished or been skipped, every data predecessor has reported (or been skipped) -/
+/-- the readiness predicate of the property: not skipped, it has predecessors at all, every
+    control predecessor has finished or been skipped, every data predecessor has reported
+    (or been skipped) -/
 def Triggered {V} (c : Chan V) : Prop :=
-  c.skipped = false ∧ (∀ p ∈ c.ctrl, p.2 ≠ Dep.waiting) ∧ (∀ p ∈ c.data, p.2 = true)
+  c.skipped = false ∧ ¬ (c.ctrl = [] ∧ c.data = []) ∧
+  (∀ p ∈ c.ctrl, p.2 ≠ Dep.waiting) ∧ (∀ p ∈ c.data, p.2 = true)
 
 theorem triggered_iff {V} (c : Chan V) : c.triggered = true ↔ Triggered c := by
   simp only [Chan.triggered, Triggered, Bool.and_eq_true, Bool.not_eq_eq_eq_not, Bool.not_true,
-    List.any_eq_false, beq_iff_eq, and_assoc]
+    List.any_eq_false, beq_iff_eq, and_assoc, List.isEmpty_iff, Bool.and_eq_false_imp]
   constructor
-  · rintro ⟨h1, h2, h3⟩
-    refine ⟨h1, fun p hp => h2 p hp, fun p hp => ?_⟩
-    have := h3 p hp
-    cases hb : p.2 <;> simp_all
-  · rintro ⟨h1, h2, h3⟩
-    refine ⟨h1, fun p hp => h2 p hp, fun p hp => ?_⟩
-    simp [h3 p hp]
+  · rintro ⟨h1, h0, h2, h3⟩
+    refine ⟨h1, ?_, fun p hp => h2 p hp, fun p hp => ?_⟩
+    · rintro ⟨e1, e2⟩
+      have := h0 (by simp [e1])
+      simp [e2] at this
+    · have := h3 p hp
+      cases hb : p.2 <;> simp_all
+  · rintro ⟨h1, h0, h2, h3⟩
+    refine ⟨h1, ?_, fun p hp => h2 p hp, fun p hp => ?_⟩
+    · intro e1
+      by_cases e2 : c.data = []
+      · exact absurd ⟨by simpa using e1, e2⟩ h0
+      · simpa using e2
+    · simp [h3 p hp]
 
 /-- **dag_fires_iff_triggered.** A DAG channel hands out an input (or fails to merge one)
     exactly when it is triggered: not skipped, all control predecessors finished or
@@ -333,12 +342,12 @@ def wOrphan : WorkflowDef Nat :=
   { nodes := [("a", fun v => .ok (v + 1)), ("b", fun v => .ok (v + 1)), ("o", fun _ => .ok 5)],
     deps := [WDep.input START "a", WDep.input "a" "b", WDep.input "b" END], branches := [] }
 
-/-- **node_without_predecessor_runs_repeatedly** (negation witness for "at most once" without
-    `WF.hasCtrlPred`). A channel without any predecessor is ready at every
-    `getFromReadyChannels`: the node is submitted again after every completion. -/
-theorem node_without_predecessor_runs_repeatedly :
-    (runEager natOps (compileW natOps wOrphan) (fun _ => 0) 0).submitted
-      = [("a", 0), ("o", 0), ("b", 1), ("o", 0), ("o", 0)] ∧
+/-- **node_without_predecessor_never_runs** (a former finding, repaired in /repo: a
+    `dagChannel` without any predecessor used to be "always ready", so the node was submitted
+    again after every completion). A node nobody declared a dependency for never runs; every
+    other node runs once. -/
+theorem node_without_predecessor_never_runs :
+    (runEager natOps (compileW natOps wOrphan) (fun _ => 0) 0).submitted = [("a", 0), ("b", 1)] ∧
     okv (runEager natOps (compileW natOps wOrphan) (fun _ => 0) 0) = some 2 := by decide
 
 end EinoV.C02
